@@ -90,7 +90,6 @@ type c01T4 struct {
 // reference-bearing arrays inside slices, struct map keys holding pointers, pointer to a struct
 // whose fields are all nil-able (its pointerified type is identical to the original)
 type c01T8 struct {
-	Tail []*c01sub // len 1, cap 3, live references in the hidden tail
 	AP   [][1]*c01sub
 	MK map[c01key]int8
 	PN *struct {
@@ -108,8 +107,6 @@ func mkT8() func() *c01T8 {
 	lv := zzverif.Int("dLevel")
 	return func() *c01T8 {
 		c := c01T8{}
-		known := []*c01sub{{V: v, W: "t0"}, {V: 2, W: "t1"}, {V: 3, W: "t2"}}
-		c.Tail = known[:1]
 		if apMode == 1 {
 			c.AP = [][1]*c01sub{{&c01sub{V: v, W: "w"}}}
 		}
@@ -309,6 +306,23 @@ func HarnessC01T10() {
 }
 
 func HarnessC01T9() { c01run("T9 maps of maps with shared inner maps / unmanaged exported reference fields", mkT9(), 1) }
+
+// a slice of pointers with spare capacity: live references in the hidden tail
+type c01T11 struct {
+	Tail []*c01sub // len 1, cap 3
+	X    int8
+}
+
+func mkT11() func() *c01T11 {
+	v := zzverif.Int16("dTailV")
+	x := zzverif.Int8("dX")
+	return func() *c01T11 {
+		known := []*c01sub{{V: v, W: "t0"}, {V: 2, W: "t1"}, {V: 3, W: "t2"}}
+		return &c01T11{Tail: known[:1], X: x}
+	}
+}
+
+func HarnessC01T11() { c01run("T11 slice of pointers with spare capacity", mkT11(), 2) }
 
 func HarnessC01T8() { c01run("T8 arrays in slices / struct keys / all-nilable pointee", mkT8(), 1) }
 func HarnessC01T8L2() { c01run("T8 arrays in slices / struct keys / all-nilable pointee", mkT8(), 2) }
